@@ -213,16 +213,42 @@ structure HState where
 def heldKey (h : HState) (name : String) : Option Nat :=
   (h.held.find? (fun e => e.1 == name)).map fun e => e.2.node h.s.g
 
-/-- a key of `append` / `extend` / `has`: `{"h": name}` = the kept handle, anything else as in the store protocol -/
+/-- a key of `has`: `{"h": name}` = the kept handle, anything else as in the store protocol -/
 def parseKeyH (h : HState) (j : Json) : Option Key :=
   match j.getObjVal? "h" with
   | .ok (.str name) => (heldKey h name).map Key.ent
   | _ => Driver.Store.parseKey h.s.g j
 
-def applyH (h : HState) (r : Except Nix.Err Graph) : HState × Json :=
-  match r with
-  | .ok g' => ({ h with s := { h.s with g := g' } }, ok Json.null)
-  | .error e => (h, err e)
+def heldHandle (h : HState) (name : String) : Option Handle := (h.held.find? (fun e => e.1 == name)).map (·.2)
+
+/-- an item of `extend`: a kept handle or a key argument of the structural model (resolved when the op runs) -/
+def parseItem (h : HState) (j : Json) : Option ItemArg :=
+  match j.getObjVal? "h" with
+  | .ok (.str name) => (heldHandle h name).map ItemArg.handle
+  | _ =>
+  match j.getObjVal? "s" with
+  | .ok (.str s) => some (.key (.str s))
+  | _ =>
+  match j.getObjVal? "id" with
+  | .ok pj => (Driver.Store.parsePath pj).map fun p => ItemArg.key (.idOf p)
+  | _ =>
+  match j.getObjVal? "nameof" with
+  | .ok pj => (Driver.Store.parsePath pj).map fun p => ItemArg.key (.nameOf p)
+  | _ =>
+  match j.getObjVal? "p" with
+  | .ok n => (jInt? n).map fun i => ItemArg.key (.pos i)
+  | _ =>
+  match j.getObjVal? "o" with
+  | .ok pj => (Driver.Store.parsePath pj).map fun p => ItemArg.key (.obj p)
+  | _ => none
+
+/-- run one operation of the handle histories (`Store/AcceptShape.lean`, `applyH`): what the theorems
+`detached_stays_detached` / `deleted_entity_refused_forever` quantify over -/
+def runHOp (h : HState) (op : HOp) : HState × Json :=
+  match applyH h.s.g op with
+  | some (.ok g') => ({ h with s := { h.s with g := g' } }, ok Json.null)
+  | some (.error e) => (h, err e)
+  | none => (h, bad "op cannot be formed")
 
 def stepH (h : HState) (j : Json) : HState × Json :=
   let g := h.s.g
@@ -238,21 +264,16 @@ def stepH (h : HState) (j : Json) : HState × Json :=
     | some k => (h, ok (readEntity h.s k))
     | none => (h, bad "handle")
   | [.str "append_h", pj, .str cname, kj] =>
-    match Driver.Store.parsePath pj with
-    | none => (h, bad "path")
-    | some p =>
-      match openCont g p cname, parseKeyH h kj with
-      | some c, some key => applyH h (contAppend g c key)
-      | none, _ => (h, bad "container")
-      | _, none => (h, bad "key")
+    match Driver.Store.parsePath pj, kj.getObjVal? "h" with
+    | some p, .ok (.str name) =>
+      match heldHandle h name with
+      | some hd => runHOp h (.appendH p cname hd)
+      | none => (h, bad "handle")
+    | _, _ => (h, bad "args")
   | [.str "extend", pj, .str cname, .arr ks] =>
-    match Driver.Store.parsePath pj with
-    | none => (h, bad "path")
-    | some p =>
-      match openCont g p cname, ks.toList.mapM (parseKeyH h) with
-      | some c, some keys => applyH h (contExtend g c keys)
-      | none, _ => (h, bad "container")
-      | _, none => (h, bad "key")
+    match Driver.Store.parsePath pj, ks.toList.mapM (parseItem h) with
+    | some p, some items => runHOp h (.extend p cname items)
+    | _, _ => (h, bad "args")
   | [.str "has_h", pj, .str cname, kj] =>
     match (Driver.Store.parsePath pj).bind fun p => openCont g p cname with
     | some c =>
@@ -264,12 +285,12 @@ def stepH (h : HState) (j : Json) : HState × Json :=
       | none => (h, bad "key")
     | none => (h, bad "container")
   | [.str "set_role_h", pj, .str role, .str name] =>
-    match Driver.Store.parsePath pj, heldKey h name with
-    | some p, some k => applyH h (setRole g p role (some k))
+    match Driver.Store.parsePath pj, heldHandle h name with
+    | some p, some hd => runHOp h (.setRoleH p role hd)
     | _, _ => (h, bad "args")
   | [.str "create_feature_h", pj, .str name, .str lt] =>
-    match Driver.Store.parsePath pj, heldKey h name with
-    | some p, some k => applyH h (createFeature g p (some k) lt)
+    match Driver.Store.parsePath pj, heldHandle h name with
+    | some p, some hd => runHOp h (.createFeatureH p hd lt)
     | _, _ => (h, bad "args")
   | _ =>
     let (s', out) := step h.s j
